@@ -162,8 +162,8 @@ def _hist_tasks(quick):
     if quick:
         for lo, hi in _chunks(75, 3):
             out.append({"kind": "hist", "of": "graph", "nmax": 4, "lo": lo, "hi": hi, "step": 1, "coords": "lattice", "plan": PLAN_HIST_Q_GRAPH})
-        for lo in range(3):       # SURF(<=4), all 66, dealt over three tasks
-            out.append({"kind": "hist", "of": "surf", "family": "surf<=4", "lo": lo, "hi": 66, "step": 3, "coords": "lattice",
+        for lo in range(11):      # SURF(<=4), all 66, dealt over eleven tasks
+            out.append({"kind": "hist", "of": "surf", "family": "surf<=4", "lo": lo, "hi": 66, "step": 11, "coords": "lattice",
                         "plan": PLAN_HIST_Q_SURF})
         out.append({"kind": "hist", "of": "tet", "lo": 0, "hi": 3, "step": 1, "coords": "generic", "plan": PLAN_HIST_Q_BIG})
         for k, l, mode in [(3, 3, "tri"), (3, 3, "quad"), (2, 4, "mixed"), (4, 4, "tri2")]:
